@@ -391,7 +391,7 @@ void TasmanianSparseGrid::getDifferentiationWeights(const double x[], double wei
     // Jacobian of f(.) at g(x).
     base->getDifferentiationWeights(formCanonicalPoints(x, x_tmp, 1), weights);
     // Jacobian of f(g(.)) at x.
-    if (not domain_transform_a.empty()) {
+    if (not domain_transform_a.empty() or not conformal_asin_power.empty()) {
         int num_dimensions = getNumDimensions();
         int num_points = getNumPoints();
         std::vector<double> jacobian_g_diag = diffCanonicalTransform<double>();
@@ -483,7 +483,7 @@ void TasmanianSparseGrid::differentiate(const double x[], double jacobian[]) con
     // Jacobian of f(.) at g(x).
     base->differentiate(formCanonicalPoints(x, x_tmp, 1), jacobian);
     // Jacobian of f(g(.)) at x.
-    if (not domain_transform_a.empty()) {
+    if (not domain_transform_a.empty() or not conformal_asin_power.empty()) {
         int num_dimensions = getNumDimensions();
         int num_outputs = getNumOutputs();
         std::vector<double> jacobian_g_diag = diffCanonicalTransform<double>();
